@@ -451,9 +451,10 @@ func runSPH(t *testing.T, ksc KScenario, res *KResult) {
 			if sp == 2 && !alive[0] && !alive[1] && lastCutOrd >= 0 && ackOrd <= lastCutOrd && !migrated {
 				sig := "congestion window reduced twice for packets of one window (every packet the ACK concerns was sent before the previous reduction)"
 				for _, p := range sent[sp] {
-					if p.pn == ranges[0].Largest && !p.ackElic {
-						// the sender's recovery guard compares with the largest ack-eliciting number sent at the last reduction
-						sig += ": the largest acknowledged packet is not ack-eliciting"
+					if p.pn == ranges[0].Largest && (!p.ackElic || p.pathProbe) {
+						// the sender's recovery guard compares with the largest number the congestion controller was told about
+						// (OnPacketSent: ack-eliciting packets that are not path probes) at the last reduction
+						sig += ": the largest acknowledged packet is one the congestion controller never saw (not ack-eliciting, or a path probe)"
 					}
 				}
 				res.Fail(sig, "cwnd %d -> %d; newest packet concerned has send ordinal %d, previous reduction happened after ordinal %d; ECN-CE count in this ACK %d", cwndBefore, cw, ackOrd, lastCutOrd, ack.ECNCE)
